@@ -1,6 +1,21 @@
 #!/bin/bash
-# usage: seedtest.sh <patch> <prop>... : applies a seeded patch to /repo, runs the quick checks, reverts.
-patch="$1"; shift
+# usage: seedtest.sh <patch> <prop>... : applies a seeded patch, runs the quick checks, reverts.
+# With SEEDTEST_WT=<dir> the patch is applied to a scratch worktree of /repo at <dir> (created, removed afterwards)
+# and the checker is pointed at it, so that several can run side by side; otherwise /repo's working tree is used.
+patch=$(readlink -f "$1"); shift
+if [ -n "$SEEDTEST_WT" ]; then
+  wt="$SEEDTEST_WT"
+  git -C /repo worktree remove --force "$wt" >/dev/null 2>&1; rm -rf "$wt"
+  git -C /repo worktree add --detach "$wt" HEAD >/dev/null 2>&1 || { echo "cannot create worktree $wt"; exit 2; }
+  git -C "$wt" apply "$patch" || { echo "PATCH DOES NOT APPLY: $patch"; git -C /repo worktree remove --force "$wt"; exit 3; }
+  for p in "$@"; do
+    out=$(cd /verif && VCHECK_NO_MUTANTS=1 ${VCHECK_BIN:-bin/vcheck} -repo "$wt" -prop "$p" -no-evidence 2>&1)
+    rc=$?
+    echo "== $p rc=$rc"; echo "$out" | grep -E "violated|UNDECIDED|CHECKER-ERROR|FLOOR" | head -8
+  done
+  git -C /repo worktree remove --force "$wt" >/dev/null 2>&1; rm -rf "$wt"
+  exit 0
+fi
 cd /repo || exit 2
 git diff --quiet || { echo "repo dirty"; exit 2; }
 git apply "$patch" || { echo "PATCH DOES NOT APPLY: $patch"; exit 3; }
